@@ -5,6 +5,7 @@ effective TTL."  Theorems over Model/JobCtl.lean (the executable model of
 jobcontroller.Reconciler validated against the Go code by the `jobctl` engine).
 -/
 import FurikoModel.Model.JobCtl
+import FurikoModel.Proofs.JobCtlPlanCreate
 
 namespace Furiko.Props.C13
 open Furiko Furiko.JobCtl
@@ -25,7 +26,7 @@ theorem ttl_not_early (s : Sys) (jo : JobObj) (rj : Job)
     | some fin =>
       simp only [hf] at h
       by_cases ht : fin.finishTimestamp.getD zeroTime + getTTLAfterFinished rj s.cfg > s.clock
-      · simp [ht] at h
+      · simp [ht, enqueueAfter] at h
       · exact ⟨hd, fin, rfl, Int.not_lt.mp ht⟩
 
 /-- The effective TTL is the job value if set, else the controller default, else 0 (seconds). -/
@@ -39,18 +40,58 @@ theorem ttl_effective (rj : Job) (cfg : ExecConfig) :
   unfold getTTLAfterFinished
   cases rj.ttlSecondsAfterFinished <;> cases cfg.defaultTTLSecondsAfterFinished <;> rfl
 
+/-- a cached pod is an UNRECORDED task of the Job: labelled with the Job's uid, controlled by it,
+and not named by any task of the status (what `adoptUnrecordedTasks` looks for: a task that was
+created but whose recording status update failed) -/
+def UnrecordedTaskPod (jo : JobObj) (rj : Job) (p : PodObj) : Prop :=
+  p.jobLabel = some jo.uid ∧ p.ownerUid = some jo.uid ∧ ∀ r ∈ rj.status.tasks, r.name ≠ p.pod.name
+
+/-- `finalizerTasks` is empty exactly when no task listed in the status can be found (cache, else
+live GET) and the pod cache holds no unrecorded task of the Job -/
+theorem finalizerTasks_nil_iff (s : Sys) (jo : JobObj) (rj : Job) :
+    finalizerTasks s jo rj = [] ↔
+      tasksForRefsConfirmed s rj.status.tasks = [] ∧
+      ∀ p ∈ s.podCache, UnrecordedTaskPod jo rj p → podTask p = none := by
+  constructor
+  · intro h
+    have hall : ∀ t, ¬ t ∈ finalizerTasks s jo rj := by rw [h]; simp
+    have hc : tasksForRefsConfirmed s rj.status.tasks = [] := by
+      cases hx : tasksForRefsConfirmed s rj.status.tasks with
+      | nil => rfl
+      | cons t rest =>
+        exact absurd ((Furiko.JobCtlPlan.mem_finalizerTasks s jo rj t).mpr (Or.inl (by rw [hx]; simp))) (hall t)
+    refine ⟨hc, ?_⟩
+    intro p hp ⟨h1, h2, h3⟩
+    cases ht : podTask p with
+    | none => rfl
+    | some t =>
+      exact absurd ((Furiko.JobCtlPlan.mem_finalizerTasks s jo rj t).mpr
+        (Or.inr ⟨p, hp, ht, h1, h2, by rw [hc]; simp, h3⟩)) (hall t)
+  · rintro ⟨hc, hu⟩
+    cases hx : finalizerTasks s jo rj with
+    | nil => rfl
+    | cons t rest =>
+      have hm : t ∈ finalizerTasks s jo rj := by rw [hx]; simp
+      rcases (Furiko.JobCtlPlan.mem_finalizerTasks s jo rj t).mp hm with h | ⟨p, hp, ht, h1, h2, _, h3⟩
+      · rw [hc] at h; cases h
+      · rw [hu p hp ⟨h1, h2, h3⟩] at ht; cases ht
+
 /-- The finalizer is dropped only in a sync in which no task listed in the status could be
-found: neither in the pod cache nor — confirmed for every listed task, finished or not — on the
-server. -/
+found — neither in the pod cache nor, confirmed for every listed task, finished or not, on the
+server — AND (repair of F-C20-1) the pod cache holds no unrecorded task of the Job: no pod labelled
+with and controlled by the Job that the status does not list. -/
 theorem finalizer_removed_only_when_gone (s : Sys) (jo : JobObj) (rj : Job) (s' : Sys) (rj' : Job)
     (h : handleFinalizer s jo rj true = (s', some (rj', false))) :
-    rj.deletionTimestamp.isSome = true ∧ tasksForRefsConfirmed s rj.status.tasks = [] := by
+    rj.deletionTimestamp.isSome = true ∧ tasksForRefsConfirmed s rj.status.tasks = [] ∧
+    (∀ p ∈ s.podCache, UnrecordedTaskPod jo rj p → podTask p = none) ∧
+    finalizerTasks s jo rj = [] := by
   unfold handleFinalizer at h
   by_cases hdel : rj.deletionTimestamp.isNone = true
   · simp [hdel] at h
   · simp only [hdel] at h
-    by_cases ht : (tasksForRefsConfirmed s rj.status.tasks).isEmpty = true
-    · refine ⟨?_, by simpa using ht⟩
+    by_cases ht : (finalizerTasks s jo rj).isEmpty = true
+    · have hnil : finalizerTasks s jo rj = [] := by simpa using ht
+      refine ⟨?_, ((finalizerTasks_nil_iff s jo rj).mp hnil).1, ((finalizerTasks_nil_iff s jo rj).mp hnil).2, hnil⟩
       cases hdt : rj.deletionTimestamp with
       | none => simp [hdt] at hdel
       | some _ => rfl
@@ -73,14 +114,27 @@ theorem confirmed_empty_means_gone (s : Sys) (refs : List TaskRef)
   · cases this
   · exact this
 
+/-- When the finalizer is dropped, every task listed in the status is gone from the server, and
+no unrecorded task of the Job (created, recording failed) is visible in the pod cache. -/
 theorem job_gone_implies_tasks_gone (s : Sys) (jo : JobObj) (rj : Job) (s' : Sys) (rj' : Job)
     (h : handleFinalizer s jo rj true = (s', some (rj', false))) :
-    ∀ r ∈ rj.status.tasks, ∀ p, findPod s.pods r.name = some p → podTask p = none := by
+    (∀ r ∈ rj.status.tasks, ∀ p, findPod s.pods r.name = some p → podTask p = none) ∧
+    (∀ p ∈ s.podCache, UnrecordedTaskPod jo rj p → podTask p = none) := by
+  refine ⟨?_, (finalizer_removed_only_when_gone s jo rj s' rj' h).2.2.1⟩
   intro r hr p hp
-  have := confirmed_empty_means_gone s _ (finalizer_removed_only_when_gone s jo rj s' rj' h).2 r hr
+  have := confirmed_empty_means_gone s _ (finalizer_removed_only_when_gone s jo rj s' rj' h).2.1 r hr
   unfold liveGetTask at this
   rw [hp] at this
   exact this
+
+/-- conversely, an unrecorded task of the Job that the pod cache holds keeps the finalizer: the
+step does not return "finalizer dropped" -/
+theorem unrecorded_task_keeps_finalizer (s : Sys) (jo : JobObj) (rj : Job) (p : PodObj) (t : Task)
+    (hp : p ∈ s.podCache) (hu : UnrecordedTaskPod jo rj p) (ht : podTask p = some t) :
+    ∀ s' rj', handleFinalizer s jo rj true ≠ (s', some (rj', false)) := by
+  intro s' rj' h
+  have := (finalizer_removed_only_when_gone s jo rj s' rj' h).2.2.1 p hp hu
+  rw [ht] at this; cases this
 
 /-- … and a task that is listed, not recorded finished, and still exists on the server is
 always found (live GET), so the finalizer stays. -/
@@ -90,6 +144,21 @@ theorem existing_unfinished_task_found (s : Sys) (ref : TaskRef) (p : PodObj) (t
     getTaskForRef s ref = some t := by
   unfold getTaskForRef liveGetTask
   simp [hc, hfin, hp, ht]
+
+/-- `unrecorded_task_keeps_finalizer` / `finalizer_removed_only_when_gone`: a Job deleted by the
+user whose status lists nothing while the pod cache holds a pod it created (recording failed):
+the pod is deleted and the finalizer kept; without that pod the finalizer is dropped. -/
+example :
+    let p : PodObj := { pod := { name := "job-d-0", creationTimestamp := some 1000000000, retryIndex := some 0 },
+                        ownerUid := some "u", ownerName := some "job", jobLabel := some "u" }
+    let rj : Job := { template := some {}, deletionTimestamp := some 90000000000, status := { startTime := some 1000000000 } }
+    let jo : JobObj := ⟨"job", "u", rj, true, 1⟩
+    let s : Sys := { clock := 100000000000, d := { hash := "d" }, pods := [p], podCache := [p] }
+    UnrecordedTaskPod jo rj p ∧ (podTask p).isSome = true ∧
+    (handleFinalizer s jo rj true).2.map (·.2) = some true ∧
+    (handleFinalizer s jo rj true).1.calls.map (fun c => (c.verb, c.res, c.name, c.out)) = [("delete", "pods", "job-d-0", "ok")] ∧
+    (handleFinalizer { s with pods := [], podCache := [] } jo rj true).2.map (·.2) = some false := by
+  refine ⟨⟨rfl, rfl, by intro r hr; cases hr⟩, by decide, by decide, by decide, by decide⟩
 
 example : ∃ s jo rj, (handleTTL s jo rj).1.calls ≠ s.calls := by
   refine ⟨{ clock := 10000000000, job := some ⟨"job", "u", {}, true, 1⟩ }, ⟨"job", "u", {}, true, 1⟩,
